@@ -433,6 +433,14 @@ func (w *inotify) handleEvent(inEvent *unix.InotifyEvent, buf *[65536]byte, offs
 	w.mu.Lock()
 	defer w.mu.Unlock()
 
+	// Closed while we were going through the events we read: the inotify file
+	// descriptor is gone and its number may have been handed out again (e.g.
+	// to another Watcher), so we must not call inotify_rm_watch() or
+	// inotify_add_watch() on it any more.
+	if w.isClosed() {
+		return Event{}, false
+	}
+
 	/// If the event happened to the watched directory or the watched file, the
 	/// kernel doesn't append the filename to the event, but we would like to
 	/// always fill the the "Name" field with a valid filename. We retrieve the
